@@ -26,7 +26,7 @@ CHECKS = {
  "C18": ("txnsim", "exploration", "seeded search over transaction call sequences and endings on the real in-memory store's transactions and on the serial fallback over a SimStore with injected Get/Set faults, judged against a map model (result count, order, op ids, values, errors) and by opening, reading and committing a fresh transaction after every ending; plus 2-3 concurrent transactions on the real in-memory store as tasks under the seeded scheduler, judged for isolation (a third of them opened read-only; half of the serial-fallback trials over a store that ignores the context it is handed)", "the store mutex is never modelled: the scheduler probes it with TryLock, so a lock that is taken later, earlier or not at all changes which interleavings are explored; a store left locked is a deadlock verdict; a double unlock kills the worker process and is attributed to the trial by the driver; Commit twice is not generated", TECH_SCHED),
  "C19": ("blobsim", "exploration", "seeded search over call sequences on blob.Bytes (and on everything derived: views of views, Set from an own view) through the dispatch functions, judged after every call against a []byte model with aliasing; runs as the single task of the scheduler with lock gates on so that re-entering the blob mutex is a deterministic deadlock verdict; the same sequences run against idbblob under node (GOOS=js GOARCH=wasm)", "views are dropped from the comparison when their root is resized (whether they still alias is implementation specific); a Set whose source does not fit may copy what fits or be refused; for the typed-array blob an error for out-of-range arguments is optional as stated; Set/Grow/Truncate dispatch fallbacks for third-party blobs lacking the method are not judged (DESIGN section 5)", TECH_SCHED + " (single task; the schedule dimension is the lock re-entry check)"),
  "C17": ("handlediff/closed+unlink", "exploration", "seeded search over post-Close call orders on every handle kind of seven stacks, sibling-handle independence and unlink/rename-then-write histories, judged against os.File and the os twin's set of names; empty and nil buffers after Close; one injected store fault in handle operations after the unlink (the call may fail, the name stays gone)", "single goroutine; reference = os.File on Linux", TECH_SEQ),
- "C20": ("deviants", "fault_enumeration", "enumeration of a fixed catalogue of 65 single-deviation wrappers around mem.FS (the simulator's fault-injecting FS wrapper in silent mode: operation does nothing / applied twice / entry left behind or missing / wrong permission bits, size, bytes, kind, name, mtime / wrong error kind / wrong error path / EOF early or missing / correct alone but EBUSY while another call is in flight) plus three references (mem.FS, os.FS, the wrapper without deviation); each runs the full fstest.FS and fstest.File suites at -test.parallel 1 and 16 x GOMAXPROCS 1 and 16 (thorough: 1, 2, 4, 16), 2 (thorough: 5) times each; references must pass, every deviant must fail, all runs of one entry must agree", "not a simulation of the library: the 'prove sensitivity' step of the technique applied to the conformance suite (DESIGN 2.1); the catalogue samples single deviations that some scenario exercises; built and run with the repository's default toolchain; both tiers run the whole catalogue", "fault seeding: enumerated silent-fault deviants of the simulator's FS wrapper run against the conformance suite"),
+ "C20": ("deviants", "fault_enumeration", "enumeration of a fixed catalogue of 72 single-deviation wrappers around mem.FS (the simulator's fault-injecting FS wrapper in silent mode: operation does nothing / applied twice / entry left behind or missing / wrong permission bits, size, bytes, kind, name, mtime / wrong error kind / wrong error path / EOF early or missing / correct alone but EBUSY while another call is in flight) plus five references (mem.FS, os.FS, the wrapper without deviation, a wrapper reporting error paths below a prefix run with AllowErrPathPrefix, a wrapper reporting modification times in UTC; references also run in another time zone); each runs the full fstest.FS and fstest.File suites at -test.parallel 1 and 16 x GOMAXPROCS 1 and 16 (thorough: 1, 2, 4, 16), 2 (thorough: 5) times each; references must pass, every deviant must fail, all runs of one entry must agree", "not a simulation of the library: the 'prove sensitivity' step of the technique applied to the conformance suite (DESIGN 2.1); the catalogue samples single deviations that some scenario exercises; built and run with the repository's default toolchain; both tiers run the whole catalogue", "fault seeding: enumerated silent-fault deviants of the simulator's FS wrapper run against the conformance suite"),
 }
 
 NOT_APPLICABLE = {
